@@ -268,6 +268,15 @@ Result runAL(const Case& cs) {
         if (half < (long)q.sh.size()) out.check(*ci == q.sh[half] && *mi == q.sh[half], nm + ": advanced iterator denotes the wrong element");
         typename AL::const_iterator ce = l.end();   // conversion iterator -> const_iterator
         out.check(ce == cl.end(), nm + ": converted end() differs from const end()");
+        if (!q.sh.empty()) {  // distinct positions compare unequal, in both mixed directions, and are ordered
+          out.check(l.begin() != cl.end() && !(l.begin() == cl.end()) && !(l.end() == cl.begin()) && cl.begin() != ce,
+                    nm + ": begin() compares equal to end()");
+          // the mixed equals() overload itself (the facade's operators route mixed comparisons through the const one)
+          out.check(!l.begin().equals(cl.end()) && !l.end().equals(cl.begin()) && l.end().equals(cl.end()) && l.begin().equals(cl.begin()),
+                    nm + ": iterator::equals(const_iterator) wrong");
+          out.check(cl.begin() < cl.end() && l.begin() < l.end() && !(cl.end() < cl.begin()) && cl.begin() - cl.end() == -(long)q.sh.size(),
+                    nm + ": iterator ordering / negative distance wrong");
+        }
       }
       if (l.size() == q.sh.size()) {
         for (std::size_t i = 0; i < l.size(); ++i) iseen.push_back(cl[i]);
